@@ -199,6 +199,27 @@ def run(ctx):
                 cut.add(c_)
         cut = sorted(cut)
         ctx.inst("C18.R5", "carrier:" + n.replace(CORE, ""), not cut, "operations that can drop part of the message: %s" % (cut or "none"), g.loc())
+    # ... and no place that prints an error cuts it with a format precision (`{:.200}` truncates a Display string)
+    n_ph = 0
+    for cr in crates:
+        for fname, f_ in cr.hir.items():
+            if f_.get("body") is None or "::tests::" in fname:
+                continue
+            cut_ = []
+            seen_ = 0
+            for mnode in H.walk(f_["body"]):
+                if H.kind(mnode) != "Macro":
+                    continue
+                for ph, arg in H.placeholder_args(cr, mnode):
+                    ty_ = (arg or {}).get("ty") or ""
+                    if "RuntimeError" in ty_ or "anyhow::Error" in ty_:
+                        seen_ += 1
+                        if ph.get("precision") is not None:
+                            cut_.append("%s! prints it with precision %s at %s" % (mnode["name"], ph.get("precision"), H.loc(mnode)))
+            if seen_:
+                n_ph += seen_
+                ctx.inst("C18.R5", "prints:" + fname.replace(CORE, ""), not cut_, "%d placeholder(s) print an evaluation error; truncating: %s" % (seen_, cut_ or "none"), H.loc(f_["body"]))
+    ctx.units["error_print_placeholders"] = n_ph
     lits = []
     hf = core.hir_fn(FCALL)
     for mnode in H.walk(hf["body"]):
